@@ -965,6 +965,11 @@ func (a *typedArrayObject) iterateStringKeys() iterNextFunc {
 
 func (a *typedArrayObject) exportToArrayOrSlice(dst reflect.Value, typ reflect.Type, ctx *objectExportCtx) error {
 	if typ == typeBytes {
+		if a.viewedArrayBuf.data == nil {
+			// detached: like ArrayBuffer.Bytes(), there is nothing to alias
+			dst.Set(reflect.Zero(typ))
+			return nil
+		}
 		dst.Set(reflect.ValueOf(a.viewedArrayBuf.data[a.offset*a.elemSize : (a.offset+a.length)*a.elemSize]))
 		return nil
 	}
@@ -972,6 +977,10 @@ func (a *typedArrayObject) exportToArrayOrSlice(dst reflect.Value, typ reflect.T
 }
 
 func (a *typedArrayObject) export(_ *objectExportCtx) interface{} {
+	if a.viewedArrayBuf.data == nil {
+		// detached: a nil slice of the element type (the element pointer would be computed from a nil base)
+		return reflect.Zero(a.typedArray.exportType()).Interface()
+	}
 	return a.typedArray.export(a.offset, a.length)
 }
 
@@ -981,6 +990,10 @@ func (a *typedArrayObject) exportType() reflect.Type {
 
 func (o *dataViewObject) exportToArrayOrSlice(dst reflect.Value, typ reflect.Type, ctx *objectExportCtx) error {
 	if typ == typeBytes {
+		if o.viewedArrayBuf.data == nil {
+			dst.Set(reflect.Zero(typ))
+			return nil
+		}
 		dst.Set(reflect.ValueOf(o.viewedArrayBuf.data[o.byteOffset : o.byteOffset+o.byteLen]))
 		return nil
 	}
